@@ -5,12 +5,13 @@ from lib.terms import g_term, g_list, g_nat, g_str, g_bool
 from props import dbcommon as D
 
 ID = 'C13'
-IMPORTS = ['Engine.Db', 'Engine.DbFacts', 'Engine.DbHeap', 'Engine.RunDb']
+IMPORTS = ['Engine.Db', 'Engine.DbFacts', 'Engine.DbHeap', 'Engine.RunDb', 'Engine.DbHeapRet']
 THEOREMS = ['C13_stored_value_at_assert_time', 'C13_stored_independent_of_later_heap', 'C13_answer_match_independent',
             'C13_two_uses_disjoint', 'C13_fact_vars_never_bound', 'C13_heap_invariant', 'C13_uses_see_stored_value',
             'C13_compiled_invariant', 'C13_compiled_invariant_big_step', 'C13_compiled_fact_vars_never_bound',
             'C13_compiled_uses_see_stored_value', 'C13_compiled_invariant_at_query_start',
-            'C13_compiled_visits_covers_solutions']
+            'C13_compiled_visits_covers_solutions', 'C13_sequential_uses_fresh', 'C13_fact_vars_never_escape',
+            'C13_retained_answers_invariant']
 RULE = ('(a) histories over a shared heap of 3-6 program variables: unifications that stay suspended (bindings before / after '
         'the assertion, chains, bindings inside structures), asserta/assertz of terms over those variables (builtin, compiled '
         'clause, assert_fact), closing and resuming suspended goals in LIFO order (backtracking), goals on the stored facts '
@@ -19,12 +20,19 @@ RULE = ('(a) histories over a shared heap of 3-6 program variables: unifications
         'assertz(p(T)), post-bindings`, disjunctive bindings with failure-driven assertion, two simultaneous uses and use by '
         'the asserting clause; compared with the value T had when asserted (computed by substitution).  Non-trivial: the '
         'asserted term contains a variable that is bound at assertion time, or the fact is non-ground and a goal on it '
-        'succeeds at least twice.  Distinct by hash of the case.')
+        'succeeds at least twice.  Distinct by hash of the case.  (c) ACROSS TIME: the driver keeps the live objects of every '
+        'answer it ever obtained (engine get_value at the answer: goals, their redo answers, every row of every read-back) and '
+        'renders all of them again after every step, variables numbered jointly with the program variables (sharing between '
+        'answers of different uses is part of the observation); histories contain findall/3 on the facts (suspended at the '
+        'unification with the bag), uses that are run to their end one after the other, steps that instantiate the answer of the '
+        'latest use; the facts are read back after every step or only at the end; compared with Engine/DbHeapRet.v; oracle: the '
+        'variables an answer brings in were never seen before.  Compiled templates seq_findall / seq_twice: findall, then a '
+        'later use that is instantiated; two findalls instantiated differently.')
 TRUSTED_BASE = [
     'Coq 8.16.1 kernel (coqc); vm_compute for the in-Coq evaluation of the model on every case',
     'no axioms: all C13 theorems are closed under the global context',
-    'hand-written model Engine/DbFacts.v (copy_term / Answer.__init__ / Answer.match) and Engine/DbHeap.v (shared heap, LIFO '
-    'generators) tied to /repo by this differential run',
+    'hand-written model Engine/DbFacts.v (copy_term / Answer.__init__ / Answer.match), Engine/DbHeap.v (shared heap, LIFO '
+    'generators) and Engine/DbHeapRet.v (findall/3, retained answers) tied to /repo by this differential run',
     'harness: generators, driver of the implementation (harness/props/c13.py), expected values of the program templates',
     'modelled, not verified: CPython generator protocol and finalisation order (LIFO close of suspended generators)',
 ]
@@ -36,6 +44,14 @@ COQ_CHUNK = 40
 # ------------------------------------------------------------------ model side
 
 def g_op(o):
+    k = o[0]
+    if k == 'findall':
+        return '(RFindall %s %s %s %s)' % (g_term(o[1]), g_str(o[2]), g_list([g_term(a) for a in o[3]]), g_term(o[4]))
+    if k == 'kept':
+        return 'RKept'
+    return '(RBase %s)' % g_hop(o)
+
+def g_hop(o):
     k = o[0]
     if k == 'unify':
         return '(HUnify %s %s)' % (g_term(o[1]), g_term(o[2]))
@@ -53,18 +69,25 @@ def g_op(o):
         return '(HRead %s %s)' % (g_str(o[1]), g_nat(o[2]))
     raise ValueError(o)
 
-def extra_ops(case):
-    return [['obs', [['v', i] for i in range(case['nvars'])]]] + [['read', n, ar] for n, ar in case['keys']]
+def reads_at(case, i):
+    """are the stored facts read back (each key with an all-variable goal, run to exhaustion) after step i?
+    'every': after every step; 'end': only after the last one (then the uses of the facts are exactly those of the history)"""
+    return case.get('reads', 'every') == 'every' or i == len(case['ops']) - 1
+
+def extra_ops(case, i):
+    ex = [['obs', [['v', j] for j in range(case['nvars'])]]]
+    if reads_at(case, i):
+        ex += [['read', n, ar] for n, ar in case['keys']]
+    return ex + [['kept']]
 
 def model_expr(case):
     if case.get('kind') == 'prog':
         return None
     ops = []
-    ex = extra_ops(case)
-    for o in case['ops']:
+    for i, o in enumerate(case['ops']):
         ops.append(g_op(o))
-        ops.extend(g_op(x) for x in ex)
-    return '(run_heap 200 %s %s)' % (g_nat(case['nvars']), g_list(ops))
+        ops.extend(g_op(x) for x in extra_ops(case, i))
+    return '(run_heap_ret 200 %s %s)' % (g_nat(case['nvars']), g_list(ops))
 
 def canon_obs(o):
     if isinstance(o, list) and o and o[0] in ('ans', 'seen'):
@@ -73,16 +96,32 @@ def canon_obs(o):
         return ['all', [D.canon_args(a) for a in o[1]]]
     return o
 
+def canon_joint(seen, kept):
+    """the program variables and ALL retained answers, variables renamed by first occurrence over the whole lot:
+    which answers share a variable with which is part of the observation"""
+    flat = list(seen) + [t for a in kept for t in a]
+    c = D.canon_args(flat)
+    out, k = [], len(seen)
+    for a in kept:
+        out.append(c[k:k + len(a)]); k += len(a)
+    return c[:len(seen)], out
+
 def split_model(case, mo):
-    w = 2 + len(case['keys'])
     out = []
     stuck = None
+    pos = 0
     for i in range(len(case['ops'])):
-        chunk = mo[i * w:(i + 1) * w]
+        w = 2 + len(extra_ops(case, i)) - 1
+        chunk = mo[pos:pos + w]
+        pos += w
         if len(chunk) < w or any(c == ['stuck'] for c in chunk):
             stuck = i
             break
-        out.append([canon_obs(chunk[0]), canon_obs(chunk[1])[1], [canon_obs(c)[1] for c in chunk[2:]]])
+        if chunk[1][0] != 'seen' or chunk[-1][0] != 'kept':
+            raise ValueError('model output out of step: %r' % (chunk,))
+        seen, kept = canon_joint(chunk[1][1], chunk[-1][1])
+        rb = [canon_obs(c)[1] for c in chunk[2:-1]] if reads_at(case, i) else None
+        out.append([canon_obs(chunk[0]), seen, rb, kept])
     return out, stuck
 
 # ------------------------------------------------------------------ implementation side
@@ -91,23 +130,65 @@ def drive(case):
     from yldprolog import engine as E
     d = D.Driver()
     yp = d.yp
-    T = terms.ImplTerms(yp, case['nvars'])
+    T = terms.ImplTerms(yp, case['nvars'])     # ONE table of Variable objects for the whole history (identity of variables)
     stack = []
     out = []
-    def read_list(objs):
+    kept = []          # every answer ever obtained: the live objects returned by the engine's get_value at that moment
+    def read_objs(objs):
         try:
-            return D.canon_args([terms.term_obs(T.read(o)) for o in objs])
+            return [T.read(o) for o in objs]
         except RecursionError:
             raise D.Deep()
+    def read_list(objs):
+        return D.canon_args([terms.term_obs(t) for t in read_objs(objs)])
+    def varset(ts):
+        vs = []
+        for t in ts:
+            terms.term_vars(t, vs)
+        return set(vs)
+    def answer(objs, before, stale):
+        """the goal (arguments objs, which mentioned the variables `before` when it started) is at an answer: retain it;
+        the variables that the answer brought in must be variables nobody has ever seen"""
+        known = len(T.vars)
+        now = read_objs(objs)
+        for v in sorted(varset(now) - before):
+            if v < known:
+                stale.append(v)
+        kept.append([E.get_value(o) for o in objs])
+        return D.canon_args([terms.term_obs(t) for t in now])
+    def readback(keys, stale):
+        res = []
+        for n, ar in keys:
+            ws = [yp.variable() for _ in range(ar)]
+            before = varset(read_objs(ws))
+            rows = []
+            g = yp.query(n, ws)
+            for _ in g:
+                rows.append(answer(ws, before, stale))
+                if len(rows) > 5000:
+                    g.close()
+                    raise RuntimeError('read-back does not end')
+            res.append(rows)
+        return res
     try:
-        for o in case['ops']:
+        for i, o in enumerate(case['ops']):
             try:
                 k = o[0]
                 extra = None
+                stale = []
                 if k == 'unify':
                     g = iter(E.unify(T.build(o[1]), T.build(o[2])))
                     try:
-                        next(g); stack.append((g, None)); r = ['ok']
+                        next(g); stack.append((g, None, None)); r = ['ok']
+                    except StopIteration:
+                        r = ['fail']
+                elif k == 'findall':
+                    tmpl, name, args, bag = o[1], o[2], o[3], o[4]
+                    objs = [T.build(a) for a in args]
+                    goal = yp.functor(name, objs) if objs else yp.atom(name)
+                    g = yp.query('findall', [T.build(tmpl), goal, T.build(bag)])
+                    try:
+                        next(g); stack.append((g, None, None)); r = ['ok']
                     except StopIteration:
                         r = ['fail']
                 elif k == 'assert':
@@ -129,6 +210,7 @@ def drive(case):
                 elif k == 'call':
                     name, args, via = o[1], o[2], o[3]
                     objs = [T.build(a) for a in args]
+                    before = varset(read_objs(objs))
                     if via == 'api':
                         g = yp.query(name, objs)
                     elif via == 'compiled':
@@ -136,37 +218,40 @@ def drive(case):
                     else:
                         g = yp.query('call', [yp.functor(name, objs) if objs else yp.atom(name)])
                     try:
-                        next(g); stack.append((g, objs)); r = ['ans', read_list(objs)]
+                        next(g); stack.append((g, objs, before)); r = ['ans', answer(objs, before, stale)]
                     except StopIteration:
                         r = ['fail']
                 elif k == 'redo':
                     if not stack:
                         r = ['bad']
                     else:
-                        g, objs = stack[-1]
+                        g, objs, before = stack[-1]
                         try:
                             next(g)
-                            r = ['ans', read_list(objs)] if objs is not None else ['unify-yielded-twice']
+                            r = ['ans', answer(objs, before, stale)] if objs is not None else ['generator-yielded-twice']
                         except StopIteration:
                             stack.pop(); r = ['end']
                 elif k == 'pop':
                     if not stack:
                         r = ['bad']
                     else:
-                        g, _ = stack.pop(); g.close(); r = ['ok']
+                        g = stack.pop()[0]; g.close(); r = ['ok']
                 else:
                     raise ValueError(o)
-                seen = read_list(T.vars[:case['nvars']])
-                rb = d.readback(case['keys'])
+                seen_now = read_objs(T.vars[:case['nvars']])
+                rb = readback(case['keys'], stale) if reads_at(case, i) else None
+                kept_now = [read_objs(a) for a in kept]
+                to_obs = lambda ts: [terms.term_obs(t) for t in ts]
+                seen, keptc = canon_joint(to_obs(seen_now), [to_obs(a) for a in kept_now])
             except (D.Deep, RecursionError):
                 out.append(['deep']); break
             except Exception as ex:
                 out.append(['raised', type(ex).__name__, str(ex)[:200]]); break
-            out.append([r, seen, rb, extra])
+            out.append([r, seen, rb, extra, keptc, stale])
     finally:
-        for g, _ in reversed(stack):
+        for e in reversed(stack):
             try:
-                g.close()
+                e[0].close()
             except Exception:
                 pass
         d.finish()
@@ -189,29 +274,45 @@ def compare(case, io, mo):
             return 'after step %d %s: program variables are %r, model %r' % (i, show_op(case['ops'][i]), a[1], b[1])
         if a[2] != b[2]:
             return 'after step %d %s: stored facts read back as %r, model %r' % (i, show_op(case['ops'][i]), a[2], b[2])
+        if a[4] != b[3]:
+            bad = [j for j, (x, y) in enumerate(itertools.zip_longest(a[4], b[3])) if x != y]
+            j = bad[0]
+            return ('after step %d %s: the retained answers (every answer obtained so far, kept by the caller and looked at again now) '
+                    'differ from the model at answer #%d of %d: implementation %r, model %r'
+                    % (i, show_op(case['ops'][i]), j, len(a[4]), a[4][j] if j < len(a[4]) else None, b[3][j] if j < len(b[3]) else None))
     return None
 
 def heap_oracle(case, io):
     keys = [tuple(k) for k in case['keys']]
     prev = [[] for _ in keys]
+    pending = [[] for _ in keys]       # asserts since the last read-back: (front, args)
     for i, (o, x) in enumerate(zip(case['ops'], io)):
         if x == ['deep']:
             return None
         if x[0] == 'raised':
             return 'step %d %s raised %s: %s' % (i, show_op(o), x[1], x[2])
-        r, seen, rb, extra = x
+        r, seen, rb, extra, kept, stale = x
+        if stale:
+            return ('step %d %s: an answer of a use of a stored fact brought in variables that are not new (they occur in an answer '
+                    'obtained earlier or in the program\'s terms): variable(s) #%s' % (i, show_op(o), ','.join(map(str, stale))))
         for j, kk in enumerate(keys):
-            want = prev[j]
             if o[0] == 'assert' and extra is not None and (extra[0], len(extra[1])) == kk:
                 if r != ['ok']:
                     return 'step %d: assert did not succeed exactly once' % i
-                want = [extra[1]] + prev[j] if o[1] else prev[j] + [extra[1]]
-                if rb[j] != want:
-                    return ('step %d %s: the stored fact is not the value the term had when it was asserted: facts %r, expected %r'
+                pending[j].append((o[1], extra[1]))
+            if rb is None:
+                continue
+            want = prev[j]
+            for front, args in pending[j]:
+                want = [args] + want if front else want + [args]
+            if rb[j] != want:
+                if pending[j]:
+                    return ('step %d %s: the stored facts are not the values the terms had when they were asserted: facts %r, expected %r'
                             % (i, show_op(o), rb[j], want))
-            elif rb[j] != want:
                 return 'step %d %s changed what the stored facts of %s/%d match: %r -> %r' % (i, show_op(o), kk[0], kk[1], prev[j], rb[j])
-        prev = rb
+            pending[j] = []
+        if rb is not None:
+            prev = rb
     return None
 
 # ------------------------------------------------------------------ compiled clauses with expected values
@@ -271,7 +372,7 @@ def gen_bindings(rng, nv, s, count):
 def gen_prog(rng):
     nv = rng.choice([2, 3, 4, 5])
     names = ['V%d' % i for i in range(nv)]
-    kind = rng.choice(['assert_time', 'assert_time', 'assert_time', 'backtrack', 'two_uses', 'self_use'])
+    kind = rng.choice(['assert_time', 'assert_time', 'assert_time', 'backtrack', 'two_uses', 'self_use', 'seq_findall', 'seq_twice'])
     ar = rng.choice([1, 1, 2])
     T = [small_term(rng, nv, rng.choice([0, 1, 2, 2]), pvar=0.6, lists=False) for _ in range(ar)]
     s = {}
@@ -321,6 +422,31 @@ def gen_prog(rng):
         c['expect_db'] = {'p': [canon(stored)]}
         c['nonground_twice'] = bool(vs)
         c['bound_inside'] = any(v in s for t in T for v in terms.term_vars(t))
+    elif kind in ('seq_findall', 'seq_twice'):
+        # one use of the fact AFTER the other; the answers of the use that ended are still held (findall keeps them in its
+        # list), then the later use is instantiated: the held answers must stay as they were
+        vs = sorted({v for t in stored for v in terms.term_vars(t)})
+        ia = [subst(t, {v: ['a', 'a'] for v in vs}) for t in stored]
+        ib = [subst(t, {v: ['a', 'b'] for v in vs}) for t in stored]
+        xs = ['X%d' % i for i in range(ar)]
+        ys = ['Y%d' % i for i in range(ar)]
+        row = lambda ts: 'r(%s)' % ','.join(ts)
+        fa = lambda bag: 'findall(%s, p(%s), %s)' % (row(xs), ','.join(xs), bag)
+        plrow = lambda ts: row([pl_term(t, names) for t in ts])
+        body = [eq(b) for b in pre] + ['%s(%s)' % (az, head_p)]
+        if kind == 'seq_findall':
+            body += [fa('L'), 'p(%s)' % ','.join(ys)] + ['%s = %s' % (y, pl_term(t, names)) for y, t in zip(ys, ia)]
+            c['source'] = 't(%s) :- %s.\n' % (','.join(['L'] + ys), ', '.join(body + [eq(b) for b in post]))
+            c['query'] = ['t', 1 + ar]
+            c['expect_answers'] = [canon([terms.mklist([['f', 'r', stored]])] + ia)]
+        else:
+            body += [fa('L1'), fa('L2'), 'L1 = [%s]' % plrow(ia), 'L2 = [%s]' % plrow(ib)]
+            c['source'] = 't(L1,L2) :- %s.\n' % ', '.join(body + [eq(b) for b in post])
+            c['query'] = ['t', 2]
+            c['expect_answers'] = [canon([terms.mklist([['f', 'r', ia]]), terms.mklist([['f', 'r', ib]])])]
+        c['expect_db'] = {'p': [canon(stored)]}
+        c['nonground_twice'] = bool(vs)
+        c['bound_inside'] = any(v in s for t in T for v in terms.term_vars(t))
     else:
         # t(V0..Vn) :- assertz(p(T)), p(T with its variables replaced by a).   The use must not bind the clause's variables
         vs = sorted({v for t in T for v in terms.term_vars(t)})
@@ -360,7 +486,7 @@ def prog_oracle(case, io):
     if io['end'] != 'done':
         return io['end']
     if 'expect_answers' in case and io['answers'] != case['expect_answers']:
-        return 'answers %r, expected %r (a use of the fact bound variables of the asserting clause)' % (io['answers'], case['expect_answers'])
+        return 'answers %r, expected %r (a use of the fact constrained the asserting clause or another use of the fact)' % (io['answers'], case['expect_answers'])
     if 'expect_count' in case and len(io['answers']) != case['expect_count']:
         return '%d answers, expected %d' % (len(io['answers']), case['expect_count'])
     for n, rows in case['expect_db'].items():
@@ -370,6 +496,12 @@ def prog_oracle(case, io):
 
 # ------------------------------------------------------------------ generation of heap histories
 
+def ground_instance(rng, args):
+    """the terms args with every variable replaced by a constant (the same variable by the same constant)"""
+    vs = sorted({v for t in args for v in terms.term_vars(t)})
+    m = {v: rng.choice([['a', 'a'], ['a', 'b'], ['i', 1], ['f', 'f', [['a', 'b']]]]) for v in vs}
+    return [subst(t, m) for t in args]
+
 def gen_heap(rng):
     nv = rng.choice([3, 4, 5, 6])
     keys = [('p', rng.choice([1, 1, 2]))]
@@ -378,32 +510,54 @@ def gen_heap(rng):
     ops = []
     last_fact = {}
     n = rng.choice([4, 6, 9, 12, 16])
+    reads = 'every' if rng.random() < (0.6 if n <= 9 else 0.3) else 'end'
+    # sequential: uses of a fact tend to be run to their end before the next one starts (one use after the other,
+    # the answers of the finished use are still held by the caller); otherwise uses pile up (simultaneous uses)
+    sequential = rng.random() < 0.5
     depth = 0          # optimistic estimate of the number of suspended generators
     dep = {}           # variable -> variables its (possible) value mentions
-    while len(ops) < n:
+    last_call = None   # arguments of the most recent goal / findall template on a stored fact: (key, args)
+    def note_binding(v, t):
+        tv = terms.term_vars(t)
+        dep.setdefault(v, set()).update(tv)
+        if t[0] == 'v':
+            dep.setdefault(t[1], set()).add(v)
+    def closure(tv):
+        clo = set(tv)
+        for _ in range(nv):
+            clo |= {y for x in clo for y in dep.get(x, ())}
+        return clo
+    guard = 0
+    while len(ops) < n and guard < 400:
+        guard += 1
         q = rng.random()
         k = rng.choice(keys) if rng.random() < 0.3 else keys[0]
-        if q < 0.3:
+        if q < 0.24:
             v = ['v', rng.randrange(nv)]
             t = small_term(rng, nv, rng.choice([0, 1, 1, 2]), pvar=0.5)
-            tv = terms.term_vars(t)
-            clo = set(tv)
-            for _ in range(nv):
-                clo |= {y for x in clo for y in dep.get(x, ())}
-            if v[1] in clo and rng.random() < 0.92:
+            if v[1] in closure(terms.term_vars(t)) and rng.random() < 0.92:
                 continue          # X = f(X), possibly through earlier bindings: cyclic, unspecified
-            dep.setdefault(v[1], set()).update(tv)
-            if t[0] == 'v':
-                dep.setdefault(t[1], set()).add(v[1])
+            note_binding(v[1], t)
             ops.append(['unify', v, t] if rng.random() < 0.8 else ['unify', t, v])
             depth += 1
+        elif q < 0.32:
+            # instantiate the answer of the most recent use: its arguments = an instance of the fact it can have matched
+            if last_call is None or last_call[0] not in last_fact:
+                continue
+            kk, cargs = last_call
+            inst = ground_instance(rng, last_fact[kk])
+            if len(inst) != len(cargs):
+                continue
+            for a, b in zip(cargs, inst):
+                if a[0] == 'v' or rng.random() < 0.7:
+                    ops.append(['unify', a, b]); depth += 1
+                    for v in terms.term_vars(a):
+                        note_binding(v, b)
         elif q < 0.52:
             args = [small_term(rng, nv, rng.choice([0, 1, 2, 2]), pvar=0.65) for _ in range(k[1])]
             t = ['f', k[0], args] if args else ['a', k[0]]
             via = rng.choice(['builtin', 'builtin', 'compiled', 'api'])
-            tv = set(terms.term_vars(t))
-            for _ in range(nv):
-                tv |= {y for x in tv for y in dep.get(x, ())}
+            tv = closure(terms.term_vars(t))
             cand = [x for x in range(nv) if x not in tv and x not in dep]
             if cand and rng.random() < 0.25:
                 # the goal itself arrives in a bound variable
@@ -422,15 +576,49 @@ def gen_heap(rng):
                     args = [['v', rng.randrange(nv)] for _ in range(k[1])]
             else:
                 args = [small_term(rng, nv, rng.choice([0, 0, 1]), pvar=0.85) for _ in range(k[1])]
+            if rng.random() < 0.22:
+                # findall(Template, k(args), Bag): the use runs to its end inside, the answers stay in Bag
+                avs = terms.term_vars(['f', 'x', args])
+                free = [x for x in range(nv) if x not in closure(avs) and x not in dep]
+                if not free:
+                    continue
+                bag = rng.choice(free)
+                tq = rng.random()
+                if tq < 0.5 and args:
+                    tmpl = rng.choice(args)
+                elif tq < 0.85:
+                    tmpl = ['f', 'r', list(args)]
+                else:
+                    tmpl = small_term(rng, nv, 1, pvar=0.7)
+                if bag in closure(terms.term_vars(tmpl)):
+                    continue
+                dep.setdefault(bag, set()).update(closure(terms.term_vars(tmpl)) | set(avs))
+                ops.append(['findall', tmpl, k[0], args, ['v', bag]])
+                depth += 1
+                last_call = (k, args)
+                continue
             ops.append(['call', k[0], args, rng.choice(['api', 'api', 'compiled', 'call'])])
             depth += 1
+            last_call = (k, args)
+            for a in args:
+                for v in terms.term_vars(a):
+                    dep.setdefault(v, set())
+            if sequential and rng.random() < 0.7:
+                # run this use to its end (every redo gives the next answer, the last one ends it)
+                for _ in range(rng.choice([1, 2, 2, 3])):
+                    ops.append(['redo'])
         elif q < 0.9:
             if depth > 0:
                 ops.append(['pop']); depth -= 1
         else:
             if depth > 0:
                 ops.append(['redo'])
-    return {'kind': 'heap', 'nvars': nv, 'ops': ops, 'keys': [list(k) for k in keys]}
+    if rng.random() < 0.4:
+        # the end of the history: every generator that is still suspended is closed (all bindings undone); the retained
+        # answers are looked at once more after each of these steps
+        for _ in range(min(depth, 8)):
+            ops.append(['pop'])
+    return {'kind': 'heap', 'nvars': nv, 'ops': ops, 'keys': [list(k) for k in keys], 'reads': reads}
 
 def gen(rng, tier):
     cases = [gen_heap(rng) for _ in range(260 if tier == 'quick' else 4000)]
@@ -460,6 +648,18 @@ def builtin_corpus():
     # goal in a bound variable, chain of variables
     c(4, [('p', 1)], ['unify', v(0), v(1)], ['unify', v(1), v(2)], ['unify', v(3), f('p', f('g', v(0), v(2)))], ['assert', False, v(3), 'builtin'],
       ['unify', v(2), a], ['pop'], ['pop'], ['pop'], ['pop'])
+    # one use after the other: the first use ends, its answer is kept; the second use is instantiated
+    c(3, [('p', 1)], ['assert', False, f('p', f('f', v(2))), 'builtin'], ['call', 'p', [v(0)], 'api'], ['redo'],
+      ['call', 'p', [v(1)], 'api'], ['unify', v(1), f('f', a)], ['pop'], ['pop'])
+    L[-1]['reads'] = 'end'
+    # findall keeps the answers of a finished use; the next use is instantiated: the list must not change
+    c(4, [('p', 1)], ['assert', False, f('p', f('f', v(3))), 'api'], ['findall', v(0), 'p', [v(0)], v(1)],
+      ['call', 'p', [v(2)], 'compiled'], ['unify', v(2), f('f', a)], ['redo'], ['redo'], ['redo'])
+    L[-1]['reads'] = 'end'
+    # two findalls in sequence, instantiated differently
+    c(4, [('p', 2)], ['assert', False, f('p', v(3), f('g', v(3), v(2))), 'builtin'], ['findall', f('r', v(0), v(1)), 'p', [v(0), v(1)], v(2)],
+      ['findall', v(1), 'p', [a, v(1)], v(3)], ['unify', v(2), terms.mklist([f('r', a, f('g', a, b))])],
+      ['unify', v(3), terms.mklist([f('g', a, a)])])
     for src, q, exp in [
         ('t :- X = f(Y), Y = a, assertz(p(X)).\n', ['t', 0], [[terms.term_obs(f('f', a))]]),
         ('t :- X = f(Y), assertz(p(X)), Y = a.\n', ['t', 0], [[terms.term_obs(f('f', v(0)))]]),
@@ -467,6 +667,18 @@ def builtin_corpus():
     ]:
         L.append({'kind': 'prog', 'template': 'corpus', 'nvars': 2, 'source': src, 'query': q, 'read': [['p', 1]],
                   'expect_count': 1, 'expect_db': {'p': exp}, 'bound_inside': True})
+    # one use after the other; findall holds the answers of the first
+    fa_ = f('f', a); fb_ = f('f', b); fv = f('f', v(0))
+    for src, q, ans in [
+        ('t(L,Y) :- assertz(p(f(_))), findall(X, p(X), L), p(Y), Y = f(a).\n', ['t', 2], [terms.mklist([fv]), fa_]),
+        ('t(L1,L2) :- assertz(p(f(_))), findall(X, p(X), L1), findall(X, p(X), L2), L1 = [f(a)], L2 = [f(b)].\n', ['t', 2],
+         [terms.mklist([fa_]), terms.mklist([fb_])]),
+        ('u(Y) :- p(Y), Y = f(b).\nt(L,M) :- assertz(p(f(_))), findall(X, p(X), L), findall(Y, u(Y), M).\n', ['t', 2],
+         [terms.mklist([fv]), terms.mklist([fb_])]),
+    ]:
+        L.append({'kind': 'prog', 'template': 'corpus-seq', 'nvars': 2, 'source': src, 'query': q, 'read': [['p', 1]],
+                  'expect_answers': [[terms.term_obs(t) for t in ans]], 'expect_db': {'p': [[terms.term_obs(fv)]]},
+                  'nonground_twice': True})
     return L
 
 def impl(case):
@@ -486,7 +698,7 @@ def nontrivial(case, io):
     nonground = False
     succ = 0
     for o, x in zip(case['ops'], io):
-        if len(x) != 4:
+        if len(x) != 6:
             break
         if o[0] == 'assert':
             vs = terms.term_vars(o[2])
@@ -496,7 +708,7 @@ def nontrivial(case, io):
                         return True
             if x[3] and any(terms.term_vars(terms.obs_term(a)) for a in x[3][1]):
                 nonground = True
-        if o[0] in ('call', 'redo') and x[0][0] == 'ans' and nonground:
+        if (o[0] in ('call', 'redo') and x[0][0] == 'ans' or o[0] == 'findall' and x[0] == ['ok']) and nonground:
             succ += 1
             if succ >= 2:
                 return True
@@ -512,6 +724,8 @@ def show_op(o):
         return '%s(%s) [%s]' % ('asserta' if o[1] else 'assertz', st(o[2]), o[3])
     if o[0] == 'call':
         return '%s(%s) [%s]' % (o[1], ','.join(st(a) for a in o[2]), o[3])
+    if o[0] == 'findall':
+        return 'findall(%s, %s(%s), %s)' % (st(o[1]), o[2], ','.join(st(a) for a in o[3]), st(o[4]))
     return o[0]
 
 def describe(case):
@@ -541,7 +755,7 @@ def distribution(cases, obs):
             continue
         for op, x in zip(c['ops'], o):
             d['ops'][op[0]] = d['ops'].get(op[0], 0) + 1
-            if len(x) == 4:
+            if len(x) == 6:
                 key = op[0] + ':' + x[0][0]
                 d['results'][key] = d['results'].get(key, 0) + 1
         if o and o[-1] == ['deep']:
